@@ -1,8 +1,9 @@
 SPECIFICATION Spec
 CONSTANTS
   NRand = 10
-  WsCount = 3
+  WsCount = 2
   PreLayouts = 1
+  FullStyles = FALSE
   NRandS = 6
 INVARIANTS
   Inv_Layout
